@@ -54,6 +54,40 @@ def wake_scenarios(w):
     return out
 
 
+# a shallow configuration (depth 1, width 1): the two pids hash into one refs/pids shard directory and one metadata
+# directory prefix, the two contents into one objects / refs/cids shard directory -- calls on *different* pids and
+# *different* contents still meet in the directories they have to create
+SHALLOW_ARGS = dict(pids=["p4", "p19"], contents=[b"content-0\r\n\x00", b"content-9\r\n\x00"], formats=[None],
+                    fake_cid=False, depth=1, width=1)
+
+
+def shallow_scenarios(tier):
+    def fn(w):
+        nothing = {str(v): False for v in w.dirv.values()}          # a new store: no shard directory exists yet
+        out = []
+        for calls in ([step.StoreObj(0, 0), step.StoreObj(1, 1)], [step.Tag(0, 0), step.Tag(1, 1)],
+                      [step.StoreMeta(0, 0, None), step.StoreMeta(1, 1, None)],
+                      [step.StoreObj(0, 0), step.StoreMeta(1, 0, None)]):
+            out.append(("%s || from: empty store without shard directories (depth 1, width 1)" % (
+                " || ".join(c.label for c in calls)), nothing, calls))
+        return out
+    return fn
+
+
+def claim_scenarios(tier):
+    """one pair per locked-identifier list, explored with two preemptions in every tier: 'the identifier is free' and
+    'the identifier is mine' must be one step (with a single preemption the second thread always runs to the end
+    before the first goes on, which hides a claim made outside the condition's lock)"""
+    def fn(w):
+        out = []
+        for calls, init in (([step.Tag(1, 0), step.Tag(1, 1)], WAKE_INIT),           # reference-pid list
+                            ([step.Delete(0), step.Delete(0)], INITS[2]),            # object-pid list
+                            ([step.Tag(0, 1), step.Tag(1, 1)], WAKE_INIT)):          # cid list, through tag_object
+            out.append(("%s || from: %s (two preemptions)" % (" || ".join(c.label for c in calls), init[0]), init[1], calls))
+        return out
+    return fn
+
+
 def scenarios_for(tier, triples=False):
     def fn(w):
         m = menu(w)
@@ -109,6 +143,12 @@ def main(tier, replay_payload=None):
     bound = 2 if tier == "thorough" else 1
     sf = scenarios_for(tier)
     if replay_payload is not None:
+        if replay_payload.get("shallow"):
+            return conc.replay_schedule(SHALLOW_ARGS, shallow_scenarios(tier), replay_payload["k"], replay_payload["log"],
+                                        replay_payload["bound"], replay_payload["clauses"][0])
+        if replay_payload.get("claim"):
+            return conc.replay_schedule(W_ARGS, claim_scenarios(tier), replay_payload["k"], replay_payload["log"],
+                                        replay_payload["bound"], replay_payload["clauses"][0])
         fn = scenarios_for(tier, triples=True) if replay_payload.get("triples") else sf
         return conc.replay_schedule(W_ARGS, fn, replay_payload["k"], replay_payload["log"],
                                     replay_payload["bound"], replay_payload["clauses"][0])
@@ -116,6 +156,10 @@ def main(tier, replay_payload=None):
                      "scheduler running the real methods in real threads; oracle = all sequential orders")
 
     def replayer(p):
+        if p.get("shallow"):
+            return conc.replay_schedule(SHALLOW_ARGS, shallow_scenarios(tier), p["k"], p["log"], p["bound"], p["clauses"][0])
+        if p.get("claim"):
+            return conc.replay_schedule(W_ARGS, claim_scenarios(tier), p["k"], p["log"], p["bound"], p["clauses"][0])
         fn = scenarios_for(tier, triples=True) if p.get("triples") else sf
         return conc.replay_schedule(W_ARGS, fn, p["k"], p["log"], p["bound"], p["clauses"][0])
     run.replayer = replayer
@@ -123,6 +167,15 @@ def main(tier, replay_payload=None):
     from engine import battery
     battery.validate(run)
     fold(run, outs, "LIN:", bound)
+    before = set(run.failures)
+    fold(run, conc.explore_scenarios(SHALLOW_ARGS, shallow_scenarios(tier), bound), "LIN:", bound)
+    for sig in set(run.failures) - before:
+        run.failures[sig]["payload"]["shallow"] = True
+    if bound < 2:
+        before = set(run.failures)
+        fold(run, conc.explore_scenarios(W_ARGS, claim_scenarios(tier), 2), "LIN:", 2)
+        for sig in set(run.failures) - before:
+            run.failures[sig]["payload"]["claim"] = True
     if tier == "thorough":
         outs3 = conc.explore_scenarios(W_ARGS, scenarios_for(tier, triples=True), 1)
         before = set(run.failures)
@@ -133,7 +186,9 @@ def main(tier, replay_payload=None):
         "FileHashStore._synchronize_object_locked_pids", "FileHashStore._release_object_locked_pids",
         "FileHashStore._synchronize_object_locked_cids", "FileHashStore._release_object_locked_cids",
         "FileHashStore._synchronize_referenced_locked_pids", "FileHashStore._release_reference_locked_pids"])
-    run.bounds = dict(threads="2 (thorough: + 8 triples)", preemption_bound=bound, pids=W_ARGS["pids"], contents=[1, 12],
+    run.bounds = dict(shallow_configuration="4 pairs on different pids and contents whose shard directories coincide "
+                      "(depth 1, width 1), from a store without shard directories",
+                      threads="2 (thorough: + 8 triples)", preemption_bound=bound, pids=W_ARGS["pids"], contents=[1, 12],
                       menu=[c.label for c in menu(World_for_labels())], starting_states=[i[0] for i in INITS],
                       granularity="every lock acquire / condition wait / file-system operation / existence probe")
     run.explanation = ("Each pair of calls runs in two real threads under a cooperative scheduler; the schedule is a "
